@@ -11,7 +11,7 @@ rsync -a --exclude .git /repo/ "$d/"
 ( cd "$d" && go build ./... ) || { echo "BUILD-FAILED $patch"; exit 3; }
 rc=0
 for p in "$@"; do
-  out=$(/verif/bin/resverif check -p "$p" -repo "$d" -no-evidence 2>&1); r=$?
+  out=$(${RESVERIF:-/verif/bin/resverif} check -p "$p" -repo "$d" -no-evidence 2>&1); r=$?
   echo "== $p exit=$r"
   echo "$out" | grep -E "^(VIOLATION|UNDECIDED|KNOWN-FINDING|  (VIOLATION|UNDECIDED):|    construct:|    at:)" | sed "s#$d/##g" | cut -c1-300
   [ $r -gt $rc ] && rc=$r
